@@ -4,7 +4,9 @@
                                pad / unpad / multistream pad / unpad / pad_impl cases
            enum <level>        enumerated small sequences: every code x CBR/VBR x padding kind, all [begin,end)
            prop <seed> <n>     property predicates evaluated on the implementation only (`W` witness lines, `P` summary)
+           propenum <level>    the same predicates on the enumerated sequences of `enum`
            stdin               answer `repack …` lines read from stdin
+           judge               evaluate the property predicates on the `repack …` lines read from stdin
    One `I` line carries a whole op sequence (ops separated by spaces, fields by '/'):
       i | n | c/x<packet> | o/<maxlen> | r/<begin>/<end>/<maxlen> | R/<begin>/<end>/<maxlen>/<sd>/<pad>/<exts>        */
 #include "vcommon.h"
@@ -121,8 +123,15 @@ static void pr_op(const op *o)
    }
 }
 
+static long st_cat_ok, st_cat_rej, st_out[8], st_out_err[4], st_seq, st_padcase;
+static void note_out(const unsigned char *b, long ret)
+{
+   if (ret == OPUS_BAD_ARG) st_out_err[0]++; else if (ret == OPUS_BUFFER_TOO_SMALL) st_out_err[1]++; else if (ret < 0) st_out_err[2]++;
+   else if (ret > 0) { int c = b[0] & 3; if (c < 3) st_out[c]++; else { st_out[(b[1] & 0x80) ? 4 : 3]++; if (b[1] & 0x40) st_out[5]++; } }
+}
 static void run_seq(op *ops, int nops)
 {
+   st_seq++;
    OpusRepacketizer rp; int k; unsigned char *copies[64];
    printf("I repack seq"); for (k = 0; k < nops; k++) { putchar(' '); pr_op(&ops[k]); } printf("\n"); fflush(stdout);
    memset(&rp, 0, sizeof rp);
@@ -133,14 +142,14 @@ static void run_seq(op *ops, int nops)
       putchar(' ');
       if (o->t == 'i') { opus_repacketizer_init(&rp); putchar('-'); }
       else if (o->t == 'n') printf("%d", opus_repacketizer_get_nb_frames(&rp));
-      else if (o->t == 'c') { int ret; copies[k] = vexact(o->pk, o->plen); ret = opus_repacketizer_cat(&rp, copies[k], (opus_int32)o->plen); o->ret = ret; printf("%s", verr(ret)); }
+      else if (o->t == 'c') { int ret; copies[k] = vexact(o->pk, o->plen); ret = opus_repacketizer_cat(&rp, copies[k], (opus_int32)o->plen); o->ret = ret; if (ret == OPUS_OK) st_cat_ok++; else st_cat_rej++; printf("%s", verr(ret)); }
       else {
          long ml = o->maxlen > 0 ? o->maxlen : 0, j; unsigned char *buf = (unsigned char *)malloc(ml + GUARD); opus_int32 ret; int bad = 0;
          memset(buf, GB, ml + GUARD);
          if (o->t == 'o') ret = opus_repacketizer_out(&rp, buf, (opus_int32)o->maxlen);
          else if (o->t == 'r') ret = opus_repacketizer_out_range(&rp, o->b, o->e, buf, (opus_int32)o->maxlen);
          else ret = opus_repacketizer_out_range_impl(&rp, o->b, o->e, buf, (opus_int32)o->maxlen, o->sd, o->pad, o->ex, o->ne);
-         o->ret = ret;
+         o->ret = ret; note_out(buf, ret);
          for (j = 0; j < GUARD; j++) if (buf[ml + j] != GB) bad = 1;
          if (bad) printf("GUARD_OVERWRITTEN");
          else if (ret < 0) printf("%s", verr(ret));
@@ -166,7 +175,7 @@ static void do_unpad(const unsigned char *pk, long len)
    unsigned char *buf = vexact(pk, len); int ret;
    printf("I repack unpad "); vhex(stdout, pk, len); printf("\n"); fflush(stdout);
    ret = opus_packet_unpad(buf, (opus_int32)len);
-   if (ret < 0) printf("O %s\n", verr(ret)); else { printf("O %d ", ret); vhex(stdout, buf, ret); printf("\n"); }
+   if (ret < 0) printf("O %s\n", verr(ret)); else { printf("O OK %d ", ret); vhex(stdout, buf, ret); printf("\n"); }
    free(buf);
 }
 static void do_mspad(const unsigned char *pk, long len, long newlen, int ns)
@@ -183,7 +192,7 @@ static void do_msunpad(const unsigned char *pk, long len, int ns)
    unsigned char *buf = vexact(pk, len); int ret;
    printf("I repack msunpad "); vhex(stdout, pk, len); printf(" %d\n", ns); fflush(stdout);
    ret = opus_multistream_packet_unpad(buf, (opus_int32)len, ns);
-   if (ret < 0) printf("O %s\n", verr(ret)); else { printf("O %d ", ret); vhex(stdout, buf, ret); printf("\n"); }
+   if (ret < 0) printf("O %s\n", verr(ret)); else { printf("O OK %d ", ret); vhex(stdout, buf, ret); printf("\n"); }
    free(buf);
 }
 static void do_padimpl(const unsigned char *pk, long len, long newlen, int pad, const opus_extension_data *e, int ne)
@@ -194,7 +203,7 @@ static void do_padimpl(const unsigned char *pk, long len, long newlen, int pad, 
    ret = opus_packet_pad_impl(buf, (opus_int32)len, (opus_int32)newlen, pad, e, ne);
    for (j = 0; j < GUARD; j++) if (buf[(cap > 0 ? cap : 1) + j] != GB) bad = 1;
    if (bad) printf("O GUARD_OVERWRITTEN\n");
-   else if (ret < 0) printf("O %s\n", verr(ret)); else { printf("O %d ", ret); vhex(stdout, buf, ret == 0 ? len : ret); printf("\n"); }
+   else if (ret < 0) printf("O %s\n", verr(ret)); else { printf("O OK %d ", ret); vhex(stdout, buf, ret == 0 ? len : ret); printf("\n"); }
    free(buf);
 }
 
@@ -256,7 +265,7 @@ static long gen_ms(vrng *r, unsigned char *o, int ns, int valid)
 
 static void padcase(vrng *r)
 {
-   static unsigned char pk[70000]; int t = vbelow(r, 10); long n, nl;
+   static unsigned char pk[140000]; int t = vbelow(r, 10); long n, nl;
    if (t < 4) {
       n = gen_packet(r, 0, pick_cfg(r), 48, pk); if (vchance(r, 12)) n = mutate(r, pk, n);
       { int k = vbelow(r, 12); nl = k == 0 ? n : k == 1 ? n - 1 : k == 2 ? n + 1 : k == 3 ? n + 2 : k == 4 ? n + 3 : k < 8 ? n + vrange(r, 1, 20) : k < 10 ? n + vrange(r, 250, 260) : n + vrange(r, 0, 1500); }
@@ -281,10 +290,13 @@ static void padcase(vrng *r)
 static void run_rand(uint64_t seed, long cases)
 {
    vrng r; long c; r.s = seed;
-   for (c = 0; c < cases; c++) { if (vchance(&r, 55)) seq_case(&r); else padcase(&r); }
+   for (c = 0; c < cases; c++) { if (vchance(&r, 55)) seq_case(&r); else { st_padcase++; padcase(&r); } }
+   printf("# rand: op-sequences=%ld pad/unpad-cases=%ld cat ok=%ld rejected=%ld; out code0=%ld code1=%ld code2=%ld code3cbr=%ld code3vbr=%ld (with padding flag=%ld) BAD_ARG=%ld BUFFER_TOO_SMALL=%ld other-error=%ld\n",
+      st_seq, st_padcase, st_cat_ok, st_cat_rej, st_out[0], st_out[1], st_out[2], st_out[3], st_out[4], st_out[5], st_out_err[0], st_out_err[1], st_out_err[2]);
 }
 
 /* Enumerated: one or two packets of every code x CBR/VBR x padding kind, all ranges, maxlen exact / exact-1. */
+static void (*enum_emit)(op *, int) = run_seq;
 static void run_enum(int level)
 {
    static unsigned char p1[4000], p2[4000]; int code1, code2, vbr1, pad1, cnt, two, b, e, d;
@@ -313,15 +325,18 @@ static void run_enum(int level)
          ops[no].t = 'c'; ops[no].pk = p1; ops[no].plen = n1; no++;
          if (two) { ops[no].t = 'c'; ops[no].pk = p2; ops[no].plen = n2; no++; }
          ops[no].t = 'r'; ops[no].b = b; ops[no].e = e; ops[no].maxlen = BIG; no++;
-         run_seq(ops, no);
+         enum_emit(ops, no);
          if (ops[no - 1].ret > 0) for (d = -1; d <= (level ? 1 : 0); d++) { long ex = ops[no - 1].ret;
-            ops[no - 1].maxlen = ex + d; run_seq(ops, no); ops[no - 1].ret = ex; }
+            ops[no - 1].maxlen = ex + d; enum_emit(ops, no); ops[no - 1].ret = ex; }
       }
       (void)r;
    }
 }
 
 /* ------------------------------------------------------------------ property mode */
+/* The property predicates of C07 evaluated on the implementation only (no model involved).  `judge_*` take a concrete
+   op sequence / packet, so the same code serves the random search (`prop`), the enumerated search (`propenum`) and the
+   re-examination of a line on which model and implementation disagreed (`judge`, lines on stdin). */
 static long nwit = 0;
 static void wit_seq(const char *kind, op *ops, int nops, const char *exp, const char *obs)
 {
@@ -335,7 +350,7 @@ static void wit_pk(const char *kind, const char *opname, const unsigned char *pk
    printf("W %s | repack %s ", kind, opname); vhex(stdout, pk, n); printf("%s | %s | %s\n", args, exp, obs);
 }
 
-/* does any stored padding carry an extension / fail to parse as extensions? */
+/* does the padding of this packet carry an extension? */
 static int has_ext(const unsigned char *pk, long n)
 {
    const unsigned char *f[48], *pad; opus_int16 s[48]; opus_int32 pl; unsigned char tc;
@@ -354,64 +369,148 @@ static int same_frames(const unsigned char *a, long na, const unsigned char *b, 
    return 1;
 }
 
+/* does buf[0..len) parse (framing sd) to exactly these frames with these configuration bits, consuming len bytes? */
+static int frames_match(const unsigned char *buf, long len, int sd, const unsigned char **sf, const int *sl, int count, unsigned char toc, char *obs)
+{
+   const unsigned char *f[48]; opus_int16 s[48]; unsigned char tc; opus_int32 po = 0; int c, i;
+   c = opus_packet_parse_impl(buf, (opus_int32)len, sd, &tc, f, s, NULL, &po, NULL, NULL);
+   if (c != count) { sprintf(obs, "output parses to %d frames, %d selected", c, count); return 0; }
+   if ((tc & 0xFC) != (toc & 0xFC)) { sprintf(obs, "output TOC %02x, stored %02x", tc, toc); return 0; }
+   if (po != len) { sprintf(obs, "parser consumes %d of %ld output bytes", po, len); return 0; }
+   for (i = 0; i < c; i++) if (s[i] != sl[i] || memcmp(f[i], sf[i], s[i])) { sprintf(obs, "frame %d differs (size %d vs %d)", i, s[i], sl[i]); return 0; }
+   return 1;
+}
+
+static opus_int32 call_out(OpusRepacketizer *rp, const op *o, int b, int e, unsigned char *buf, long ml, int pad)
+{
+   if (o->t == 'o') return opus_repacketizer_out(rp, buf, (opus_int32)ml);
+   if (o->t == 'r') return opus_repacketizer_out_range(rp, b, e, buf, (opus_int32)ml);
+   return opus_repacketizer_out_range_impl(rp, b, e, buf, (opus_int32)ml, o->sd, pad, o->ex, o->ne);
+}
+
+static int jlines = 0;   /* print the case in flight (`J` line) before running it */
+static void jline_pk(const char *opname, const unsigned char *pk, long n, const char *args)
+{
+   if (!jlines) return;
+   printf("J repack %s ", opname); vhex(stdout, pk, n > 0 ? n : 0); printf("%s\n", args); fflush(stdout);
+}
+
+/* returns 1 when a witness was reported */
+static int judge_seq(op *ops, int nops, long *classes)
+{
+   static unsigned char out[BIG + GUARD], out2[BIG + GUARD];
+   OpusRepacketizer rp; unsigned char *copies[40]; int k, j, anyext = 0, wit = 0; char obs[300];
+   const unsigned char *sf[48]; int sl[48], snb = 0; unsigned char stoc = 0;
+   if (nops > 40) nops = 40;
+   if (jlines) { printf("J repack seq"); for (k = 0; k < nops; k++) { putchar(' '); pr_op(&ops[k]); } printf("\n"); fflush(stdout); }
+   memset(copies, 0, sizeof copies); memset(&rp, 0, sizeof rp);
+   opus_repacketizer_init(&rp);
+   for (k = 0; k < nops && !wit; k++) {
+      op *o = &ops[k]; int upto = k + 1;
+      if (o->t == 'i') { opus_repacketizer_init(&rp); snb = 0; anyext = 0; }
+      else if (o->t == 'n') {
+         int nb = opus_repacketizer_get_nb_frames(&rp);
+         if (nb != snb) { sprintf(obs, "nb_frames=%d, %d frames accepted", nb, snb); wit_seq("nb-frames", ops, upto, "nb_frames counts the accepted frames", obs); wit = 1; }
+      } else if (o->t == 'c') {
+         const unsigned char *f[48]; opus_int16 s[48]; unsigned char tc = 0; int c, ret, expect, i; opus_int32 before, after;
+         copies[k] = vexact(o->pk, o->plen);
+         c = o->plen >= 1 ? opus_packet_parse(copies[k], (opus_int32)o->plen, &tc, f, s, NULL) : -1;
+         expect = c >= 1 && (snb == 0 || (tc & 0xFC) == (stoc & 0xFC))
+                  && (snb + c) * opus_packet_get_samples_per_frame(snb == 0 ? copies[k] : &stoc, 8000) <= 960;
+         before = snb > 0 ? opus_repacketizer_out(&rp, out, BIG) : 0;
+         ret = opus_repacketizer_cat(&rp, copies[k], (opus_int32)o->plen);
+         if ((ret == OPUS_OK) != expect) { sprintf(obs, "cat=%s, parse=%d, frames held=%d", verr(ret), c, snb); wit_seq("cat-accepts-iff", ops, upto, "accepted exactly when valid, configuration-compatible and <= 120 ms", obs); wit = 1; }
+         else if (ret != OPUS_OK) {
+            if (ret != OPUS_INVALID_PACKET) { sprintf(obs, "cat=%s", verr(ret)); wit_seq("cat-error-kind", ops, upto, "a rejected cat returns INVALID_PACKET", obs); wit = 1; }
+            else if (opus_repacketizer_get_nb_frames(&rp) != snb) { wit_seq("cat-reject-unchanged", ops, upto, "rejected cat leaves nb_frames unchanged", "changed"); wit = 1; }
+            else { after = snb > 0 ? opus_repacketizer_out(&rp, out2, BIG) : 0;
+               if (before != after || (before > 0 && memcmp(out, out2, before))) { wit_seq("cat-reject-unchanged", ops, upto, "rejected cat leaves contents unchanged", "out differs"); wit = 1; } }
+         } else {
+            if (snb == 0) stoc = tc;
+            for (i = 0; i < c && snb < 48; i++) { sf[snb] = f[i]; sl[snb] = s[i]; snb++; }
+            if (opus_repacketizer_get_nb_frames(&rp) != snb) { sprintf(obs, "nb_frames=%d, expected %d", opus_repacketizer_get_nb_frames(&rp), snb); wit_seq("nb-frames", ops, upto, "accepted cat adds the packet's frames", obs); wit = 1; }
+            if (has_ext(copies[k], o->plen)) anyext = 1;
+         }
+      } else {
+         int b = o->t == 'o' ? 0 : o->b, e = o->t == 'o' ? snb : o->e, sd = o->t == 'R' ? o->sd : 0, pad = o->t == 'R' ? o->pad : 0, ne = o->t == 'R' ? o->ne : 0;
+         long ml = o->maxlen > BIG ? BIG : o->maxlen, mlz = ml > 0 ? ml : 0; opus_int32 big, r2;
+         int valid = b >= 0 && b < e && e <= snb, extcase = anyext || ne > 0;
+         if (!valid) {
+            memset(out2, GB, mlz + GUARD);
+            r2 = call_out(&rp, o, b, e, out2, ml, pad);
+            if (r2 != OPUS_BAD_ARG) { sprintf(obs, "ret=%d", r2); wit_seq("out-bad-arg", ops, upto, "invalid range gives BAD_ARG", obs); wit = 1; }
+            for (j = 0; j < (int)mlz + GUARD && !wit; j++) if (out2[j] != GB) { wit_seq("out-guard", ops, upto, "nothing is written on BAD_ARG", "buffer modified"); wit = 1; }
+            if (classes) classes[6]++;
+            continue;
+         }
+         /* reference call: large buffer, no padding */
+         memset(out, GB, BIG + GUARD);
+         big = call_out(&rp, o, b, e, out, BIG, 0);
+         if (big <= 0) {
+            if (ne == 0) { sprintf(obs, "ret=%s", verr(big)); wit_seq("out-succeeds", ops, upto, "out/out_range succeeds for a valid range and a large buffer", obs); wit = 1; }
+            continue;   /* passed-in extensions may be invalid for this range: refusing them is legitimate */
+         }
+         if (!frames_match(out, big, sd, sf + b, sl + b, e - b, stoc, obs)) { wit_seq("out-roundtrip", ops, upto, "output parses back to the selected frames, byte for byte, same configuration bits", obs); wit = 1; continue; }
+         if (!extcase && !sd && big > 1277 * (e - b)) { sprintf(obs, "ret=%d > 1277*%d", big, e - b); wit_seq("out-size", ops, upto, "1277 bytes per selected frame suffice", obs); wit = 1; continue; }
+         /* the requested call */
+         memset(out2, GB, mlz + GUARD);
+         r2 = call_out(&rp, o, b, e, out2, ml, pad); o->ret = r2;
+         for (j = 0; j < GUARD; j++) if (out2[mlz + j] != GB) { wit_seq("out-guard", ops, upto, "no write beyond maxlen", "guard overwritten"); wit = 1; break; }
+         if (wit) continue;
+         if (r2 > ml) { sprintf(obs, "ret=%d > maxlen=%ld", r2, ml); wit_seq("out-size", ops, upto, "output never exceeds maxlen", obs); wit = 1; continue; }
+         if (r2 > 0 && !frames_match(out2, r2, sd, sf + b, sl + b, e - b, stoc, obs)) { wit_seq("out-roundtrip", ops, upto, "output parses back to the selected frames, byte for byte, same configuration bits", obs); wit = 1; continue; }
+         if (r2 > 0 && pad && r2 != ml) { sprintf(obs, "ret=%d maxlen=%ld", r2, ml); wit_seq("out-pad-size", ops, upto, "with pad the output has exactly maxlen bytes", obs); wit = 1; continue; }
+         if (!extcase) {
+            if (ml < big) { if (r2 != OPUS_BUFFER_TOO_SMALL) { sprintf(obs, "ret=%d with maxlen=%ld, minimal size %d", r2, ml, big); wit_seq("out-size", ops, upto, "maxlen below the minimal size is refused with BUFFER_TOO_SMALL", obs); wit = 1; continue; } }
+            else if (!pad) { if (r2 != big || memcmp(out, out2, big)) { sprintf(obs, "ret=%d with maxlen=%ld, minimal size %d", r2, ml, big); wit_seq("out-size", ops, upto, "maxlen >= minimal size suffices and gives the same packet", obs); wit = 1; continue; } }
+            else if (r2 != ml) { sprintf(obs, "ret=%d with maxlen=%ld pad=1, minimal size %d", r2, ml, big); wit_seq("out-pad-size", ops, upto, "padding to maxlen >= minimal size succeeds with exactly maxlen bytes", obs); wit = 1; continue; }
+         } else if (r2 < 0 && ne == 0 && !pad && r2 != OPUS_BUFFER_TOO_SMALL) { sprintf(obs, "ret=%s", verr(r2)); wit_seq("out-error-kind", ops, upto, "a valid range is refused only with BUFFER_TOO_SMALL", obs); wit = 1; continue; }
+         else if (ml >= big && !pad && ne == 0 && r2 != big) { sprintf(obs, "ret=%d with maxlen=%ld, large-buffer size %d", r2, ml, big); wit_seq("out-size", ops, upto, "the size does not depend on a sufficient maxlen", obs); wit = 1; continue; }
+         if (classes) classes[((e - b) == 1 ? 0 : (e - b) == 2 ? 1 : 2) + (extcase ? 3 : 0)]++;
+      }
+   }
+   for (k = 0; k < 40; k++) free(copies[k]);
+   return wit;
+}
+
 static void prop_seq(vrng *r, long *classes)
 {
-   static unsigned char store[16][8000]; static unsigned char out[70000 + GUARD], out2[70000 + GUARD];
-   OpusRepacketizer rp; op ops[40]; int nops = 0, cfg = pick_cfg(r), np = 0, k, anyext = 0; char obs[300];
-   unsigned char tocb = (unsigned char)(cfg * 4); int spf = opus_packet_get_samples_per_frame(&tocb, 8000);
-   /* shadow state: the frames the repacketizer should hold */
-   const unsigned char *sf[48]; int sl[48], snb = 0; unsigned char stoc = 0; int steps = vrange(r, 1, 9);
+   static unsigned char store[16][8000]; op ops[40]; int nops = 0, cfg = pick_cfg(r), np = 0, frames = 0;
+   unsigned char tocb = (unsigned char)(cfg * 4); int maxfr = 960 / opus_packet_get_samples_per_frame(&tocb, 8000);
+   int want = vrange(r, 1, 10);
    memset(ops, 0, sizeof ops);
-   opus_repacketizer_init(&rp);
-   for (k = 0; k < steps; k++) {
-      int t = vbelow(r, 100);
-      if (t < 55 && np < 16) {
-         int c2 = vchance(r, 88) ? cfg : pick_cfg(r); long n = gen_packet(r, 0, c2, vchance(r, 80) ? (960 / spf - snb > 0 ? 960 / spf - snb : 1) : 48, store[np]);
-         const unsigned char *f[48]; opus_int16 s[48]; unsigned char tc; int c, ret, expect, before, after, i;
+   while (nops < want + 2 && nops < 36) {
+      int t = vbelow(r, 100); op *o = &ops[nops];
+      if (t < 50 && np < 16) {
+         int c2 = vchance(r, 88) ? cfg : (vchance(r, 50) ? (cfg ^ (1 << vbelow(r, 6))) : pick_cfg(r));
+         int room = maxfr - frames; long n;
+         n = gen_packet(r, 0, c2, vchance(r, 85) ? (room > 0 ? room : 1) : 48, store[np]);
          if (vchance(r, 12)) n = mutate(r, store[np], n);
-         ops[nops].t = 'c'; ops[nops].pk = store[np]; ops[nops].plen = n; nops++;
-         c = opus_packet_parse(store[np], (opus_int32)n, &tc, f, s, NULL);
-         expect = c >= 1 && (snb == 0 || (tc & 0xFC) == (stoc & 0xFC)) && (snb + c) * opus_packet_get_samples_per_frame(snb == 0 ? store[np] : &stoc, 8000) <= 960;
-         before = snb > 0 ? opus_repacketizer_out(&rp, out, 70000) : 0;
-         ret = opus_repacketizer_cat(&rp, store[np], (opus_int32)n);
-         if ((ret == OPUS_OK) != expect) { sprintf(obs, "cat=%s, parse=%d, frames held=%d", verr(ret), c, snb); wit_seq("cat-accepts-iff", ops, nops, "accepted exactly when valid, configuration-compatible and <= 120 ms", obs); return; }
-         if (ret != OPUS_OK) {
-            if (opus_repacketizer_get_nb_frames(&rp) != snb) { wit_seq("cat-reject-unchanged", ops, nops, "rejected cat leaves nb_frames unchanged", "changed"); return; }
-            after = snb > 0 ? opus_repacketizer_out(&rp, out2, 70000) : 0;
-            if (before != after || (before > 0 && memcmp(out, out2, before))) { wit_seq("cat-reject-unchanged", ops, nops, "rejected cat leaves contents unchanged", "out differs"); return; }
-         } else { if (snb == 0) stoc = tc; for (i = 0; i < c; i++) { sf[snb] = f[i]; sl[snb] = s[i]; snb++; } if (has_ext(store[np], n)) anyext = 1; }
-         np++;
-      } else if (t < 90 && snb > 0) {
-         int b = vbelow(r, snb), e = vrange(r, b + 1, snb), ret, i; const unsigned char *f[48]; opus_int16 s[48]; unsigned char tc; int c;
-         int whole = (b == 0 && e == snb);
-         ops[nops].t = whole ? 'o' : 'r'; ops[nops].b = b; ops[nops].e = e; ops[nops].maxlen = BIG; nops++;
-         memset(out, GB, 70000 + GUARD);
-         ret = whole ? opus_repacketizer_out(&rp, out, 70000) : opus_repacketizer_out_range(&rp, b, e, out, 70000);
-         if (ret <= 0) { sprintf(obs, "ret=%s", verr(ret)); wit_seq("out-succeeds", ops, nops, "out/out_range succeeds for a valid range and a large buffer", obs); return; }
-         c = opus_packet_parse(out, ret, &tc, f, s, NULL);
-         if (c != e - b || (tc & 0xFC) != (stoc & 0xFC)) { sprintf(obs, "parse=%d toc=%02x", c, tc); wit_seq("out-roundtrip", ops, nops, "output parses back to the selected frames with the original configuration bits", obs); return; }
-         for (i = 0; i < c; i++) if (s[i] != sl[b + i] || memcmp(f[i], sf[b + i], s[i])) { sprintf(obs, "frame %d differs", i); wit_seq("out-roundtrip", ops, nops, "frames byte for byte and in order", obs); return; }
-         /* size clauses */
-         { int r2; memset(out2, GB, 70000 + GUARD);
-           ops[nops - 1].maxlen = ret; r2 = whole ? opus_repacketizer_out(&rp, out2, ret) : opus_repacketizer_out_range(&rp, b, e, out2, ret);
-           if (r2 != ret || memcmp(out, out2, ret)) { sprintf(obs, "ret=%d with maxlen=%d", r2, ret); wit_seq("out-size", ops, nops, "maxlen = exact size suffices and gives the same packet", obs); return; }
-           for (i = ret; i < ret + GUARD; i++) if (out2[i] != GB) { wit_seq("out-guard", ops, nops, "no write beyond maxlen", "guard overwritten"); return; }
-           memset(out2, GB, 70000 + GUARD);
-           ops[nops - 1].maxlen = ret - 1; r2 = whole ? opus_repacketizer_out(&rp, out2, ret - 1) : opus_repacketizer_out_range(&rp, b, e, out2, ret - 1);
-           if (r2 != OPUS_BUFFER_TOO_SMALL) { sprintf(obs, "ret=%d with maxlen=%d", r2, ret - 1); wit_seq("out-size", ops, nops, "maxlen = exact size - 1 is refused with BUFFER_TOO_SMALL", obs); return; }
-           for (i = ret - 1; i < ret + GUARD; i++) if (out2[i] != GB) { wit_seq("out-guard", ops, nops, "no write beyond maxlen", "byte after maxlen overwritten"); return; }
-           if (!anyext && ret > 1277 * (e - b)) { sprintf(obs, "ret=%d > 1277*%d", ret, e - b); wit_seq("out-size", ops, nops, "1277 bytes per selected frame suffice", obs); return; }
-           ops[nops - 1].maxlen = BIG; }
-         classes[(c == 1 ? 0 : c == 2 ? 1 : 2) + (anyext ? 3 : 0)]++;
-      } else if (t < 95) {
-         int b = vrange(r, -1, snb + 1), e = vrange(r, -1, snb + 2), ret;
-         if (b >= 0 && b < e && e <= snb) continue;
-         ops[nops].t = 'r'; ops[nops].b = b; ops[nops].e = e; ops[nops].maxlen = BIG; nops++;
-         ret = opus_repacketizer_out_range(&rp, b, e, out, 70000);
-         if (ret != OPUS_BAD_ARG) { sprintf(obs, "ret=%d", ret); wit_seq("out-bad-arg", ops, nops, "invalid range gives BAD_ARG", obs); return; }
-         classes[6]++;
-      } else { ops[nops++].t = 'i'; opus_repacketizer_init(&rp); snb = 0; anyext = 0; }
+         o->t = 'c'; o->pk = store[np]; o->plen = n; np++; nops++;
+         { const unsigned char *f[48]; opus_int16 s[48]; unsigned char tc; int c = opus_packet_parse(o->pk, (opus_int32)n, &tc, f, s, NULL); if (c > 0 && c2 == cfg && frames + c <= maxfr) frames += c; }
+      } else if (t < 88) {
+         int hi = frames > 0 ? frames : 1, kind = vbelow(r, 10), d = vbelow(r, 12);
+         o->t = kind < 3 ? 'o' : kind < 7 ? 'r' : 'R';
+         o->b = vchance(r, 94) ? (int)vbelow(r, hi) : vrange(r, -1, hi + 1);
+         o->e = vchance(r, 94) ? vrange(r, o->b + 1, hi) : vrange(r, -1, hi + 2);
+         if (o->t == 'R') { o->sd = vbelow(r, 2); o->pad = vchance(r, 40); o->ne = vchance(r, 75) ? 0 : gen_small_exts(r, o->ex, o->st, o->e > o->b ? o->e - o->b : 1, 6); }
+         /* maxlen relative to the exact size is unknown here: use absolute classes; judge_seq derives the expectation */
+         o->maxlen = d < 3 ? BIG : d < 5 ? vrange(r, 0, 12) : d < 8 ? vrange(r, 0, 60) : d < 10 ? vrange(r, 200, 1400) : d < 11 ? vrange(r, -2, 3) : 1277L * 48;
+         nops++;
+      } else if (t < 94) { o->t = 'n'; nops++; }
+      else { o->t = 'i'; frames = 0; nops++; }
    }
+   if (judge_seq(ops, nops, classes)) return;
+   /* second pass: every out-type op with maxlen at the exact size, one less, and (padded) a little more */
+   { int k, any = 0; OpusRepacketizer rp; static unsigned char buf[BIG]; opus_repacketizer_init(&rp);
+     for (k = 0; k < nops; k++) {
+        op *o = &ops[k];
+        if (o->t == 'i') opus_repacketizer_init(&rp);
+        else if (o->t == 'c') opus_repacketizer_cat(&rp, o->pk, (opus_int32)o->plen);
+        else if (o->t != 'n') { opus_int32 ex = call_out(&rp, o, o->t == 'o' ? 0 : o->b, o->t == 'o' ? opus_repacketizer_get_nb_frames(&rp) : o->e, buf, BIG, 0);
+           if (ex > 0) { int d = vbelow(r, 6); o->maxlen = d < 2 ? ex : d < 4 ? ex - 1 : d < 5 ? ex + 1 : ex + vrange(r, 2, 300); any = 1; } }
+     }
+     if (any) judge_seq(ops, nops, classes); }
 }
 
 static int decode_eq(const unsigned char *a, long na, const unsigned char *b, long nb)
@@ -426,58 +525,120 @@ static int decode_eq(const unsigned char *a, long na, const unsigned char *b, lo
    return 1;
 }
 
-static void prop_pad(vrng *r, long *classes)
+static unsigned char ja[72000 + GUARD], jb[72000 + GUARD], jc[72000 + GUARD];
+
+/* opus_packet_pad(pk, n, nl) and the unpad clauses for the same packet; returns 1 when a witness was reported */
+static int judge_pad(const unsigned char *pk, long n, long nl, int decode, long *classes)
 {
-   static unsigned char pk[70000], a[72000], b[72000], c[72000]; long n; char obs[200], args[64];
-   const unsigned char *f[48]; opus_int16 s[48]; unsigned char tc; int cnt, ret, t = vbelow(r, 10);
-   if (t < 7) {
-      long nl; int r2;
-      n = gen_packet(r, 0, pick_cfg(r), 48, pk); if (vchance(r, 8)) n = mutate(r, pk, n);
-      cnt = opus_packet_parse(pk, (opus_int32)n, &tc, f, s, NULL);
-      nl = vchance(r, 50) ? n + vrange(r, 0, 12) : vchance(r, 50) ? n + vrange(r, 250, 520) : n + vrange(r, 0, 1500);
-      memcpy(a, pk, n); memset(a + n, GB, nl - n + GUARD);
-      ret = opus_packet_pad(a, (opus_int32)n, (opus_int32)nl);
-      sprintf(args, " %ld", nl);
-      if (cnt >= 1 && n >= 1) {
-         int i;
-         if (ret != OPUS_OK) { sprintf(obs, "pad=%s", verr(ret)); wit_pk("pad-ok", "pad", pk, n, args, "padding a valid packet to new_len >= len succeeds", obs); return; }
-         for (i = 0; i < GUARD; i++) if (a[nl + i] != GB) { wit_pk("pad-guard", "pad", pk, n, args, "no write beyond new_len", "guard overwritten"); return; }
-         if (!same_frames(pk, n, a, nl, 0)) { wit_pk("pad-frames", "pad", pk, n, args, "padded packet has exactly new_len bytes with the same frames and configuration", "differs"); return; }
-         if (vchance(r, 25) && !decode_eq(pk, n, a, nl)) { wit_pk("pad-decode", "pad", pk, n, args, "same decoded audio and final range", "differs"); return; }
-         /* unpad: canonical, idempotent, not longer */
-         memcpy(b, pk, n); ret = opus_packet_unpad(b, (opus_int32)n);
-         if (ret <= 0 || ret > n) { sprintf(obs, "unpad=%d len=%ld", ret, n); wit_pk("unpad-len", "unpad", pk, n, "", "0 < unpad(x) <= len", obs); return; }
-         if (!same_frames(pk, n, b, ret, 0)) { wit_pk("unpad-frames", "unpad", pk, n, "", "unpadded packet has the same frames", "differs"); return; }
-         memcpy(c, b, ret); r2 = opus_packet_unpad(c, ret);
-         if (r2 != ret || memcmp(b, c, ret)) { sprintf(obs, "second unpad=%d first=%d", r2, ret); wit_pk("unpad-idempotent", "unpad", pk, n, "", "unpad(unpad x) = unpad x", obs); return; }
-         r2 = opus_packet_unpad(a, (opus_int32)nl);
-         if (r2 != ret || memcmp(a, b, ret)) { sprintf(obs, "unpad(pad x)=%d unpad x=%d", r2, ret); wit_pk("unpad-canonical", "pad", pk, n, args, "unpad(pad x) = unpad x (canonical form)", obs); return; }
-         classes[8 + (tc & 3)]++;
-      } else if (ret == OPUS_OK && nl != n) { wit_pk("pad-invalid", "pad", pk, n, args, "invalid packet is refused", "OK"); return; }
-   } else {
-      int ns = vrange(r, 1, 8), s2, ok = 1; long off = 0, offp = 0, nl; long sofs[9];
-      n = gen_ms(r, pk, ns, 1);
-      nl = n + (vchance(r, 50) ? vrange(r, 1, 12) : vrange(r, 250, 600));
+   const unsigned char *f[48]; opus_int16 s[48]; unsigned char tc = 0; int cnt, ret, i, r2, ext; char obs[200], args[64];
+   long cap = nl > n ? nl : n; if (cap < 0) cap = 0; if (cap > 70000 || n > 70000) return 0;
+   sprintf(args, " %ld", nl); jline_pk("pad", pk, n, args);
+   cnt = n >= 1 ? opus_packet_parse(pk, (opus_int32)n, &tc, f, s, NULL) : -1;
+   ext = cnt >= 1 && has_ext(pk, n);
+   memset(ja, GB, cap + GUARD); memcpy(ja, pk, n > 0 ? n : 0);
+   ret = opus_packet_pad(ja, (opus_int32)n, (opus_int32)nl);
+   sprintf(args, " %ld", nl);
+   for (i = 0; i < GUARD; i++) if (ja[cap + i] != GB) { wit_pk("pad-guard", "pad", pk, n, args, "no write beyond the buffer", "guard overwritten"); return 1; }
+   if (n < 1 || nl < n) { if (ret != OPUS_BAD_ARG) { sprintf(obs, "pad=%s", verr(ret)); wit_pk("pad-bad-arg", "pad", pk, n, args, "len < 1 or new_len < len gives BAD_ARG", obs); return 1; } return 0; }
+   if (cnt < 1) {
+      if (nl != n && ret != OPUS_INVALID_PACKET) { sprintf(obs, "pad=%s", verr(ret)); wit_pk("pad-invalid", "pad", pk, n, args, "an invalid packet is refused with INVALID_PACKET", obs); return 1; }
+      return 0;
+   }
+   if (ret != OPUS_OK) {
+      if (ext && ret == OPUS_BUFFER_TOO_SMALL) return 0;   /* re-encoded extensions may need more room: outside the proved case */
+      sprintf(obs, "pad=%s", verr(ret)); wit_pk("pad-ok", "pad", pk, n, args, "padding a valid packet to new_len >= len succeeds", obs); return 1;
+   }
+   if (!same_frames(pk, n, ja, nl, 0)) { wit_pk("pad-frames", "pad", pk, n, args, "padded packet has exactly new_len bytes with the same frames and configuration", "differs"); return 1; }
+   if (decode && !decode_eq(pk, n, ja, nl)) { wit_pk("pad-decode", "pad", pk, n, args, "same decoded audio and final range", "differs"); return 1; }
+   /* unpad: never longer, same frames, idempotent, canonical */
+   memcpy(jb, pk, n); ret = opus_packet_unpad(jb, (opus_int32)n);
+   if (ret <= 0 || ret > n) { sprintf(obs, "unpad=%d len=%ld", ret, n); wit_pk("unpad-len", "unpad", pk, n, "", "0 < unpad(x) <= len", obs); return 1; }
+   if (!same_frames(pk, n, jb, ret, 0)) { wit_pk("unpad-frames", "unpad", pk, n, "", "unpadded packet has the same frames", "differs"); return 1; }
+   { const unsigned char *pd; opus_int32 pl = 0; opus_packet_parse_impl(jb, ret, 0, &tc, f, s, NULL, NULL, &pd, &pl);
+     if (pl != 0) { sprintf(obs, "%d padding bytes left", pl); wit_pk("unpad-canonical", "unpad", pk, n, "", "no padding is left", obs); return 1; } }
+   memcpy(jc, jb, ret); r2 = opus_packet_unpad(jc, ret);
+   if (r2 != ret || memcmp(jb, jc, ret)) { sprintf(obs, "second unpad=%d first=%d", r2, ret); wit_pk("unpad-idempotent", "unpad", pk, n, "", "unpad(unpad x) = unpad x", obs); return 1; }
+   r2 = opus_packet_unpad(ja, (opus_int32)nl);
+   if (r2 != ret || memcmp(ja, jb, ret)) { sprintf(obs, "unpad(pad x)=%d unpad x=%d", r2, ret); wit_pk("unpad-canonical", "pad", pk, n, args, "unpad(pad x) = unpad x (canonical form)", obs); return 1; }
+   if (classes) classes[8 + (tc & 3)]++;
+   return 0;
+}
+
+static int judge_unpad(const unsigned char *pk, long n, long *classes)
+{
+   const unsigned char *f[48]; opus_int16 s[48]; unsigned char tc; int cnt, ret; char obs[200];
+   if (n > 70000) return 0;
+   jline_pk("unpad", pk, n, "");
+   cnt = n >= 1 ? opus_packet_parse(pk, (opus_int32)n, &tc, f, s, NULL) : -1;
+   if (cnt >= 1) return judge_pad(pk, n, n, 0, classes);
+   memcpy(jb, pk, n > 0 ? n : 0); ret = opus_packet_unpad(jb, (opus_int32)n);
+   if (n < 1 ? ret != OPUS_BAD_ARG : ret != OPUS_INVALID_PACKET) { sprintf(obs, "unpad=%s", verr(ret)); wit_pk("unpad-invalid", "unpad", pk, n, "", "len < 1 gives BAD_ARG, an invalid packet INVALID_PACKET", obs); return 1; }
+   if (n > 0 && memcmp(jb, pk, n)) { wit_pk("unpad-invalid", "unpad", pk, n, "", "a refused packet is left untouched", "modified"); return 1; }
+   return 0;
+}
+
+/* multistream: per stream the same frames; unpad canonical / idempotent / not longer */
+static int judge_ms(const unsigned char *pk, long n, long nl, int ns, int dopad, long *classes)
+{
+   const unsigned char *f[48]; opus_int16 s[48]; unsigned char tc; int s2, ok = 1, ret, r2; long off = 0, offp = 0; char obs[200], args[64];
+   int valid = n >= 1 && ns >= 1;
+   if (n > 70000 || nl > 70000) return 0;
+   if (dopad) sprintf(args, " %ld %d", nl, ns); else sprintf(args, " %d", ns);
+   jline_pk(dopad ? "mspad" : "msunpad", pk, n, args);
+   for (s2 = 0; valid && s2 < ns; s2++) { opus_int32 po = 0; int sd = s2 != ns - 1;
+      if (n - off < 1 || opus_packet_parse_impl(pk + off, (opus_int32)(n - off), sd, &tc, f, s, NULL, &po, NULL, NULL) < 1) valid = 0; else off += po; }
+   if (!valid) return 0;   /* invalid multistream packets: only the correspondence (and ASan) applies */
+   if (dopad) {
+      int anyext = 0; off = 0;
       sprintf(args, " %ld %d", nl, ns);
-      memcpy(a, pk, n); memset(a + n, GB, nl - n + GUARD);
-      ret = opus_multistream_packet_pad(a, (opus_int32)n, (opus_int32)nl, ns);
-      if (ret != OPUS_OK) { sprintf(obs, "mspad=%s", verr(ret)); wit_pk("mspad-ok", "mspad", pk, n, args, "multistream pad of a valid packet succeeds", obs); return; }
-      /* per stream: same frames */
+      memset(ja, GB, (nl > n ? nl : n) + GUARD); memcpy(ja, pk, n);
+      ret = opus_multistream_packet_pad(ja, (opus_int32)n, (opus_int32)nl, ns);
+      if (nl < n) { if (ret != OPUS_BAD_ARG) { sprintf(obs, "mspad=%s", verr(ret)); wit_pk("mspad-bad-arg", "mspad", pk, n, args, "new_len < len gives BAD_ARG", obs); return 1; } return 0; }
+      { long o2 = 0; for (s2 = 0; s2 < ns; s2++) { opus_int32 po = 0; const unsigned char *pd; opus_int32 pl; int c = opus_packet_parse_impl(pk + o2, (opus_int32)(n - o2), s2 != ns - 1, &tc, f, s, NULL, &po, &pd, &pl);
+          if (c > 0 && opus_packet_extensions_count(pd, pl, c) > 0) anyext = 1; o2 += po; } }
+      if (ret != OPUS_OK) { if (anyext && ret == OPUS_BUFFER_TOO_SMALL) return 0; sprintf(obs, "mspad=%s", verr(ret)); wit_pk("mspad-ok", "mspad", pk, n, args, "multistream pad of a valid packet succeeds", obs); return 1; }
+      for (s2 = 0; s2 < GUARD; s2++) if (ja[nl + s2] != GB) { wit_pk("mspad-guard", "mspad", pk, n, args, "no write beyond new_len", "guard overwritten"); return 1; }
       for (s2 = 0; s2 < ns; s2++) { opus_int32 po = 0, pp = 0; int sd = s2 != ns - 1;
          if (opus_packet_parse_impl(pk + off, (opus_int32)(n - off), sd, &tc, f, s, NULL, &po, NULL, NULL) < 1) { ok = 0; break; }
-         if (opus_packet_parse_impl(a + offp, (opus_int32)(nl - offp), sd, &tc, f, s, NULL, &pp, NULL, NULL) < 1) { ok = 0; break; }
-         if (!same_frames(pk + off, sd ? po : n - off, a + offp, sd ? pp : nl - offp, sd)) { ok = 0; break; }
-         sofs[s2] = off; off += po; offp += pp; }
-      if (!ok) { wit_pk("mspad-frames", "mspad", pk, n, args, "every stream keeps its frames", "differs"); return; }
-      memcpy(b, pk, n); ret = opus_multistream_packet_unpad(b, (opus_int32)n, ns);
-      sprintf(args, " %d", ns);
-      if (ret <= 0 || ret > n) { sprintf(obs, "msunpad=%d len=%ld", ret, n); wit_pk("msunpad-len", "msunpad", pk, n, args, "0 < msunpad(x) <= len", obs); return; }
-      { int r2; memcpy(c, b, ret); r2 = opus_multistream_packet_unpad(c, ret, ns);
-        if (r2 != ret || memcmp(b, c, ret)) { sprintf(obs, "second=%d first=%d", r2, ret); wit_pk("msunpad-idempotent", "msunpad", pk, n, args, "msunpad idempotent", obs); return; }
-        r2 = opus_multistream_packet_unpad(a, (opus_int32)nl, ns);
-        if (r2 != ret || memcmp(a, b, ret)) { sprintf(obs, "msunpad(mspad x)=%d msunpad x=%d", r2, ret); wit_pk("msunpad-canonical", "msunpad", pk, n, args, "msunpad(mspad x) = msunpad x", obs); return; } }
-      (void)sofs;
-      classes[12 + (ns > 1)]++;
+         if (opus_packet_parse_impl(ja + offp, (opus_int32)(nl - offp), sd, &tc, f, s, NULL, &pp, NULL, NULL) < 1) { ok = 0; break; }
+         if (!same_frames(pk + off, sd ? po : n - off, ja + offp, sd ? pp : nl - offp, sd)) { ok = 0; break; }
+         off += po; offp += pp; }
+      if (!ok || offp != nl) { wit_pk("mspad-frames", "mspad", pk, n, args, "every stream keeps its frames and the packet has exactly new_len bytes", "differs"); return 1; }
+   }
+   memcpy(jb, pk, n); ret = opus_multistream_packet_unpad(jb, (opus_int32)n, ns);
+   sprintf(args, " %d", ns);
+   if (ret <= 0 || ret > n) { sprintf(obs, "msunpad=%d len=%ld", ret, n); wit_pk("msunpad-len", "msunpad", pk, n, args, "0 < msunpad(x) <= len", obs); return 1; }
+   off = 0; offp = 0; ok = 1;
+   for (s2 = 0; s2 < ns; s2++) { opus_int32 po = 0, pp = 0; int sd = s2 != ns - 1;
+      if (opus_packet_parse_impl(pk + off, (opus_int32)(n - off), sd, &tc, f, s, NULL, &po, NULL, NULL) < 1) { ok = 0; break; }
+      if (opus_packet_parse_impl(jb + offp, (opus_int32)(ret - offp), sd, &tc, f, s, NULL, &pp, NULL, NULL) < 1) { ok = 0; break; }
+      if (!same_frames(pk + off, sd ? po : n - off, jb + offp, sd ? pp : ret - offp, sd)) { ok = 0; break; }
+      off += po; offp += pp; }
+   if (!ok || offp != ret) { wit_pk("msunpad-frames", "msunpad", pk, n, args, "every stream keeps its frames", "differs"); return 1; }
+   memcpy(jc, jb, ret); r2 = opus_multistream_packet_unpad(jc, ret, ns);
+   if (r2 != ret || memcmp(jb, jc, ret)) { sprintf(obs, "second=%d first=%d", r2, ret); wit_pk("msunpad-idempotent", "msunpad", pk, n, args, "msunpad idempotent", obs); return 1; }
+   if (dopad && nl >= n) { r2 = opus_multistream_packet_unpad(ja, (opus_int32)nl, ns);
+      if (r2 != ret || memcmp(ja, jb, ret)) { sprintf(obs, "msunpad(mspad x)=%d msunpad x=%d", r2, ret); wit_pk("msunpad-canonical", "msunpad", pk, n, args, "msunpad(mspad x) = msunpad x", obs); return 1; } }
+   if (classes) classes[12 + (ns > 1)]++;
+   return 0;
+}
+
+static void prop_pad(vrng *r, long *classes)
+{
+   static unsigned char pk[140000]; long n, nl; int t = vbelow(r, 10);
+   if (t < 6) {
+      int k = vbelow(r, 12);
+      n = gen_packet(r, 0, pick_cfg(r), 48, pk); if (vchance(r, 8)) n = mutate(r, pk, n);
+      nl = k == 0 ? n : k == 1 ? n - 1 : k == 2 ? n + 1 : k == 3 ? n + 2 : k == 4 ? n + 3 : k < 8 ? n + vrange(r, 1, 20) : k < 10 ? n + vrange(r, 250, 520) : n + vrange(r, 0, 1500);
+      judge_pad(pk, n, nl, vchance(r, 25), classes);
+   } else if (t < 7) {
+      n = gen_packet(r, 0, pick_cfg(r), 48, pk); if (vchance(r, 30)) n = mutate(r, pk, n);
+      judge_unpad(pk, n, classes);
+   } else {
+      int ns = vrange(r, 1, 8);
+      n = gen_ms(r, pk, ns, !vchance(r, 5));
+      nl = n + (vchance(r, 10) ? -1 : vchance(r, 50) ? vrange(r, 1, 12) : vrange(r, 250, 600));
+      judge_ms(pk, n, nl, ns, 1, classes);
    }
 }
 
@@ -487,10 +648,12 @@ static void run_prop(uint64_t seed, long cases)
    r.s = seed;
    for (c = 0; c < cases; c++) { if (vchance(&r, 55)) prop_seq(&r, classes); else prop_pad(&r, classes); }
    for (i = 0; i < 16; i++) if (classes[i]) dist++;
-   printf("P cases=%ld distinct=%ld witnesses=%ld classes=", cases, dist, nwit);
+   printf("P cases=%ld distinct=%ld witnesses=%ld classes(out 1/2/3+ frames, same with extensions, bad-arg, -, pad by input code 0..3, ms 1/n streams)=", cases, dist, nwit);
    for (i = 0; i < 16; i++) printf("%s%ld", i ? "," : "", classes[i]);
    printf("\n");
 }
+static long enum_cases, enum_classes[16];
+static void enum_judge(op *ops, int no) { enum_cases++; judge_seq(ops, no, enum_classes); }
 
 /* ------------------------------------------------------------------ stdin */
 static int parse_exts(char *s, opus_extension_data *e, sx *st, int max)
@@ -510,10 +673,15 @@ static int parse_exts(char *s, opus_extension_data *e, sx *st, int max)
 int main(int argc, char **argv)
 {
    vinstall_traps();
+   if (argc >= 2 && (!strcmp(argv[1], "prop") || !strcmp(argv[1], "propenum") || !strcmp(argv[1], "judge"))) jlines = 1;
    if (argc >= 4 && !strcmp(argv[1], "rand")) run_rand(strtoull(argv[2], 0, 10), atol(argv[3]));
    else if (argc >= 3 && !strcmp(argv[1], "enum")) run_enum(atoi(argv[2]));
    else if (argc >= 4 && !strcmp(argv[1], "prop")) run_prop(strtoull(argv[2], 0, 10), atol(argv[3]));
-   else if (argc >= 2 && !strcmp(argv[1], "stdin")) {
+   else if (argc >= 3 && !strcmp(argv[1], "propenum")) { int i; long dist = 0; enum_emit = enum_judge; run_enum(atoi(argv[2]));
+      for (i = 0; i < 16; i++) if (enum_classes[i]) dist++;
+      printf("P cases=%ld distinct=%ld witnesses=%ld (enumerated one-/two-packet sequences, all ranges, maxlen exact/-1/+1)\n", enum_cases, dist, nwit); }
+   else if (argc >= 2 && (!strcmp(argv[1], "stdin") || !strcmp(argv[1], "judge"))) {
+      int judge = !strcmp(argv[1], "judge");
       static char line[1 << 22]; static unsigned char buf[1 << 20]; static unsigned char pstore[40][8000];
       while (fgets(line, sizeof line, stdin)) {
          char opn[32]; char *s = line;
@@ -534,20 +702,21 @@ int main(int argc, char **argv)
                else continue;
                no++;
             }
-            run_seq(ops, no);
+            if (judge) judge_seq(ops, no, NULL); else run_seq(ops, no);
          } else {
             char *h = strchr(s, 'x'); long n, a = 0; int b = 0; char *sp;
             if (!h) continue;
             n = vunhex(h, buf, sizeof buf); sp = strchr(h, ' ');
-            if (!strcmp(opn, "pad")) { if (sp) a = atol(sp + 1); do_pad(buf, n, a); }
-            else if (!strcmp(opn, "unpad")) do_unpad(buf, n);
-            else if (!strcmp(opn, "mspad")) { if (sp) sscanf(sp + 1, "%ld %d", &a, &b); do_mspad(buf, n, a, b); }
-            else if (!strcmp(opn, "msunpad")) { if (sp) b = atoi(sp + 1); do_msunpad(buf, n, b); }
+            if (!strcmp(opn, "pad")) { if (sp) a = atol(sp + 1); if (judge) judge_pad(buf, n, a, 1, NULL); else do_pad(buf, n, a); }
+            else if (!strcmp(opn, "unpad")) { if (judge) judge_unpad(buf, n, NULL); else do_unpad(buf, n); }
+            else if (!strcmp(opn, "mspad")) { if (sp) sscanf(sp + 1, "%ld %d", &a, &b); if (judge) judge_ms(buf, n, a, b, 1, NULL); else do_mspad(buf, n, a, b); }
+            else if (!strcmp(opn, "msunpad")) { if (sp) b = atoi(sp + 1); if (judge) judge_ms(buf, n, n, b, 0, NULL); else do_msunpad(buf, n, b); }
+            else if (judge) continue;
             else if (!strcmp(opn, "padimpl")) { opus_extension_data e[12]; sx st[12]; int pd = 0, ne = 0; char *x;
                if (sp) { sscanf(sp + 1, "%ld %d", &a, &pd); x = strchr(sp + 1, ' '); if (x) x = strchr(x + 1, ' '); if (x) ne = parse_exts(x + 1, e, st, 12); if (ne < 0) ne = 0; }
                do_padimpl(buf, n, a, pd, e, ne); }
          }
       }
-   } else { fprintf(stderr, "usage: c07_repack rand|prop <seed> <n> | enum <level> | stdin\n"); return 64; }
+   } else { fprintf(stderr, "usage: c07_repack rand|prop <seed> <n> | enum|propenum <level> | stdin | judge\n"); return 64; }
    return 0;
 }
